@@ -61,15 +61,32 @@ def boundary_grid(run):
                 ("accumulate", ("add2",), sc.NOSEED), ("accumulate", ("add2",), 5), ("reverse",), ("distinct", None),
                 ("indexOf", 2), ("lastIndexOf", 2), ("indexOf", 7), ("any", None), ("all", None), ("toSet",),
                 ("orderBy", ("id",), False), ("groupBy", ("mod", 2), None), ("dictFromItems",), ("cycle",),
+                ("unpackNamed", n), ("unpackNamed", n + 1), ("unpackNamed", max(1, n - 1)), ("unpackIdx", (2, 3)), ("with",),
+                ("zipLongest", ((7,),), sc.NOSEED), ("zipLongest", ((7, 8, 9, 10),), 0), ("zipLongest", (), sc.NOSEED), ("listOf", (7,)),
+                ("groupByAgg", ("mod", 2), None, 0), ("groupByAgg", ("mod", 2), ("add", 1), 1),
                 ("flatten",), ("defaultIfEmpty", (7,)), ("joinRange", 1, 4, ("gt2",), ("pair2",)), ("join", (1, 2, 3), ("eq2",), ("add2",)), ("isList",), ("isIterable",), ("isSet",), ("isDict",), ("in", 2), ("in", None)]
         for s in sts:
-            if None in l and s[0] in ("sum", "min", "max", "aggregate", "accumulate", "groupBy", "enumerate") and s[0] != "enumerate":
+            if None in l and s[0] in ("sum", "min", "max", "aggregate", "accumulate", "groupBy", "groupByAgg"):
                 continue
+            if s[0] == "unpackNamed" and s[1] < 1:
+                continue
+
             for kind in ("tuple", "iter"):
                 if s[0] == "cycle":
                     out.append(((kind, l), [s, ("take", 5)]))
                 else:
                     out.append(((kind, l), [s]))
+        if len(l) >= 1:
+            for kind in ("tuple", "iter"):
+                out.append(((kind, l), [("unpackIdx", (1, 2))]))
+                out.append((("recs", kind, l), [("attr",)]))
+    out.append((("generate", 0, ("lt", 7), ("add", 2), None, False), []))
+    out.append((("generate", 0, ("lt", 7), ("add", 2), ("mul", 10), False), []))
+    out.append((("generate", 1, ("lt", 7), ("mod", 3), None, True), []))
+    for df in (False, True):
+        out.append((("generateMany", 1, 12, None, False, df), []))
+        out.append((("generateMany", 1, 9, ("add", 10), True, df), [("take", 4)]))
+        out.append((("generateMany", 0, 6, None, True, df), []))
     return out
 
 
@@ -96,7 +113,7 @@ def correspondence(run):
     cases, meta = [], []
     for src, stages, literal, aliases in todo:
         text, o = observe(src, stages, literal, aliases)
-        nontriv = bool(stages) and not (src[0] in ("tuple", "iter", "set", "dict") and len(src[1]) == 0)
+        nontriv = bool(stages) and not (src[0] in ("tuple", "iter", "set", "dict") and len(src[1]) == 0) or src[0] in ("generate", "generateMany")
         run.case((src, sc.stages_json(stages)), nontrivial=nontriv)
         run.count("source:" + src[0])
         run.count("stages:%d" % len(stages))
@@ -131,7 +148,8 @@ def shrink(run, src, stages, literal, aliases):
         cands.append((src, stages[:j] + stages[j + 1:]))
     for j in range(1, len(stages) if not unordered else 0):
         cands.append((src, stages[:j]))
-    if src[0] in ("tuple", "iter", "set", "dict"):
+    keep_nonempty = any(s[0] == "unpackIdx" and 1 in s[1] for s in stages)     # $1 of an empty unpack is the outer $
+    if src[0] in ("tuple", "iter", "set", "dict") and not (keep_nonempty and len(src[1]) <= 1):
         for k in range(len(src[1])):
             cands.append(((src[0], src[1][:k] + src[1][k + 1:]), stages))
     terms, keep = [], []
@@ -392,7 +410,8 @@ DIFF_FUNS = ["$.insert(%(i)d, 9)", "$.insertMany(%(i)d, [8, 9])", "$.delete(%(i)
              "$.replaceMany(%(i)d, [8, 9], 2)", "$.splitAt(%(i)d)", "$.skip(%(i)d)", "$.take(%(i)d)", "$.slice(%(i)d)",
              "$.enumerate(%(i)d)", "$.last()", "$.first()", "$.reverse()", "$.len()", "$.indexOf(%(i)d)",
              "$.distinct()", "$.orderBy($)", "$.sum()", "$.contains(%(i)d)", "$ + [%(i)d]", "$.memorize()", "$.single()",
-             "$.defaultIfEmpty([7])", "$.toList()", "$.accumulate($1 + $2)", "$.count()"]
+             "$.defaultIfEmpty([7])", "$.toList()", "$.accumulate($1 + $2)", "$.count()",
+             "$.unpack() -> [$2, $3]", "$.zipLongest([7])", "$.flatten()", "$.groupBy($ mod 2, aggregator => $.len())"]
 
 
 def differential(run, lists):
